@@ -174,9 +174,13 @@ func cmdPlay(args []string) {
 		pf, _ = os.Create(*progress)
 	}
 	n := 0
+	wedged := 0
 	eachBehaviour(*in, func(i int, b run.M) {
 		if *only >= 0 && i != *only {
 			return
+		}
+		if wedged >= 5 {
+			return // executions in which the server hangs wait for their timeouts: a few of them are enough for a verdict
 		}
 		if pf != nil {
 			pf.Seek(0, 0)
@@ -186,6 +190,12 @@ func cmdPlay(args []string) {
 		evs, err := run.Play(b, rng, run.Projections[*proj])
 		if err != nil {
 			die("behaviour %d: %v", i, err)
+		}
+		for _, e := range evs {
+			if e["k"] == "wedged" {
+				wedged++
+				break
+			}
 		}
 		tw.writeExec(evs, i)
 		n++
